@@ -126,6 +126,9 @@ def tag_filter(t0: int, t1: int, t2: int, use_tag: bool, tag: int, a1: bool, b1:
     """
     hx.begin()
     n = hx.P['n']
+    if hx.P.get('big_tags'):
+        # tag values outside the interpreter's small-integer cache, each computed afresh (equal values, distinct objects)
+        t0, t1, t2, tag = t0 + 100000, t1 + 100000, t2 + 100000, tag + 100000
     m = Model(logger=NULL_LOGGER)
     res = _population(m, n, [(a1, False), (b1, False), (c1, False)], [t0, t1, t2])
     tmpl = [T1] if w1 else []
@@ -140,7 +143,7 @@ def tag_filter(t0: int, t1: int, t2: int, use_tag: bool, tag: int, a1: bool, b1:
         if use_tag and a.tag != tag:
             continue
         exp.append(a)
-    if use_tag and tag == 0 and len(exp) < n:
+    if use_tag and tag == (100000 if hx.P.get('big_tags') else 0) and len(exp) < n:
         hx.reach('tag_zero_filters')
     if use_tag and len(exp) > 0:
         hx.reach('tag_matches')
@@ -303,6 +306,17 @@ def after_history(i0: int, i1: int, i2: int, i3: int, w1: bool, use_tag: bool, t
                 return hx.end(True)
             env.remove_agent(a.id)
             ref.remove(a)
+        elif op == 'f':
+            # a removal that FAILS half-way (the resident gained a component nobody registered, so deregistering it raises):
+            # if it fails the agent keeps its place in the joining order; if it succeeds the agent is gone
+            if not inref or T2 in a.components:
+                return hx.end(True)
+            a.add_component(T2(a, m))
+            try:
+                env.remove_agent(a.id)
+                ref.remove(a)
+            except KeyError:
+                hx.reach('removal_failed')
         if k < len(ops) - 1 and hx.P['q'][k] == '0':
             continue                    # no query after this step (queries may fill caches: every pattern is a partition)
         exp = [x for x in ref if ((not w1) or T1 in x.components) and ((not use_tag) or x.tag == tag)]
@@ -349,7 +363,7 @@ def obligations(tier):
           labels=("proper_subset", "empty_template"),
           labels_for=lambda p: ("proper_subset", "empty_template") if p["n"] else ("empty_template",), timeout=600, encoded=enc,
           bounds={"agents": "0,2,3", "template": "any subset of {T1,T2,T0}, either order"}),
-        X("tag_filter", tag_filter, parts=[{"n": n} for n in (1, 3)], labels=("tag_zero_filters", "tag_matches"), timeout=600,
+        X("tag_filter", tag_filter, parts=[{"n": n} for n in (1, 3)] + [{"n": 2, "big_tags": True}], labels=("tag_zero_filters", "tag_matches"), timeout=600,
           encoded=enc, bounds={"tags": "all ints incl. 0 and unregistered", "filter": "None or any int"}),
         X("random_pick", random_pick, parts=[{"n": n} for n in ((0, 2, 3) if tier == "quick" else (0, 1, 2, 3, 4))] +
           [{"n": 2, "api": True}, {"n": 3, "api": True, "nested": True}, {"n": 2, "api": True, "second_env": True}, {"n": 2, "alias": True},
@@ -359,6 +373,7 @@ def obligations(tier):
           encoded=(Environment.get_random_agent, Environment.get_agents), bounds={"draw": "any int >= 0"}),
         X("shuffle_perm", shuffle_perm, parts=[{"n": n} for n in ((2, 3) if tier == "quick" else (1, 2, 3, 4))] + [{"n": 2, "elsewhere": True}],
           labels=("shuffled", "filtered_shuffle", "tag_filtered_shuffle"), timeout=900, encoded=(Environment.shuffle, Environment.get_agents)),
-        X("after_history", after_history, parts=_hist(3 if tier == "quick" else 4), labels=("done",), timeout=300, group=4,
+        X("after_history", after_history, parts=_hist(3 if tier == "quick" else 4) +
+          [{"ops": "aaf", "q": "01"}, {"ops": "aaaf", "q": "101"}, {"ops": "aafa", "q": "010"}], labels=("done",), timeout=300, group=4,
           encoded=enc + (Environment.add_agent, Environment.remove_agent)),
     ]
